@@ -39,6 +39,36 @@ def abstract_text(code):
     return _INT.sub("N", code)
 
 
+def top_level_functions(text):
+    import ast
+    try:
+        return [n.name for n in ast.parse(text).body if isinstance(n, ast.FunctionDef)]
+    except SyntaxError:
+        return []
+
+
+def free_names(text):
+    """Names the generated module loads without binding them itself (and that are not builtins): its external constants."""
+    import ast
+    import builtins
+    tree = ast.parse(text)
+    bound, loaded = set(), set()
+    for n in ast.walk(tree):
+        if isinstance(n, ast.Name):
+            (loaded if isinstance(n.ctx, ast.Load) else bound).add(n.id)
+        elif isinstance(n, ast.FunctionDef):
+            bound.add(n.name)
+            for a in n.args.posonlyargs + n.args.args + n.args.kwonlyargs:
+                bound.add(a.arg)
+            if n.args.vararg:
+                bound.add(n.args.vararg.arg)
+            if n.args.kwarg:
+                bound.add(n.args.kwarg.arg)
+        elif isinstance(n, ast.alias):
+            bound.add((n.asname or n.name).split(".")[0])
+    return {x for x in loaded - bound if not hasattr(builtins, x)}
+
+
 def count_assert_nodes(graph):
     """Number of distinct Assert applications reachable from the graph's outputs (None if the walk fails)."""
     import einx._src.tracer as tracer
@@ -84,13 +114,13 @@ def check_record(case, rec, value, args_after, out, backend):
     out.count("records")
     # (a2) what einx exec()s is compile(text)
     if hooks.exec_events:
-        mine = compile(text, "<string>", "exec")
-        if not any(co == mine for co in hooks.exec_events):
+        if not any(co == compile(text, co.co_filename, "exec") for co in hooks.exec_events):  # (same pseudo file name as the executed code object)
             out.violation({"kind": "executed-code-differs-from-text"}, {"case": cj, "text": text}, "the code object einx exec()s is not compile(text)")
         else:
             out.count("audit_exec_matches")
     # root-inlined graph: no function in the text
-    if not isinstance(rec.compiled_graph, tracer.Graph) or "def op(" not in text:
+    top_defs = top_level_functions(text)
+    if not isinstance(rec.compiled_graph, tracer.Graph) or not top_defs:
         out.violation({"kind": "text-defines-no-function", "graph_type": type(rec.compiled_graph).__name__}, {"case": cj, "text": text}, f"generated text defines no function: {text!r}")
         return
     # every Assert node of the graph is an assert statement of the text
@@ -103,12 +133,14 @@ def check_record(case, rec, value, args_after, out, backend):
         if n_assert_nodes:
             out.count("records_with_asserts")
     # (b) exec in an empty namespace + listed constants
-    consts = re.findall(r"^# Constant (const\d+):", text, flags=re.M)
-    used = set(re.findall(r"\bconst\d+\b", "\n".join(l for l in text.splitlines() if not l.lstrip().startswith("#"))))
+    # constants = the free names of the text (loaded, but neither imported, defined, assigned nor builtin); each must be named in a header comment
+    used = free_names(text)
+    commented = set(re.findall(r"[A-Za-z_]\w*", "\n".join(l for l in text.splitlines() if l.lstrip().startswith("#"))))
+    consts = sorted(used)
     if consts:
         out.count("records_with_constants")
-    if used != set(consts):
-        out.violation({"kind": "header-constants-differ-from-body"}, {"case": cj, "text": text, "header": sorted(consts), "body": sorted(used)}, f"the header announces constants {sorted(consts)} but the body uses {sorted(used)}")
+    if not used <= commented:
+        out.violation({"kind": "header-constants-differ-from-body"}, {"case": cj, "text": text, "in_comments": sorted(commented & set(getattr(rec.fn, "__globals__", {}))), "body": sorted(used)}, f"the body uses the constants {sorted(used - commented)} that no header comment lists")
         return
     ns = {}
     g = getattr(rec.fn, "__globals__", {})
@@ -119,7 +151,7 @@ def check_record(case, rec, value, args_after, out, backend):
         ns[c] = g[c]
     try:
         exec(text, ns, ns)
-        fn2 = ns["op"]
+        fn2 = ns[getattr(rec.fn, "__name__", None) if getattr(rec.fn, "__name__", None) in top_defs else top_defs[-1]]
     except Exception as e:
         out.violation({"kind": "text-not-self-contained", "exc": type(e).__name__}, {"case": cj, "text": text, "error": str(e)[:200]}, f"exec(text) in a namespace holding only the listed constants fails: {type(e).__name__}: {e}")
         return
